@@ -208,6 +208,131 @@ func c17(c *Ctx) {
 	}
 	if c.Replay == "" {
 		c17EndToEnd(c, r)
+		c17Sequences(c, r)
+	}
+}
+
+// c17Sequences: several URLs authenticated one after the other on ONE CredentialHelperContext (the
+// context shares a single command helper), with protection configured per URL.  Each fill must be
+// refused or accepted according to the setting of the URL it is for; the Lean context machine
+// (Cr.ctxRun) predicts the refusals.
+func c17Sequences(c *Ctx, r *Rng) {
+	n := c.N(80, 1500)
+	dir := filepath.Join(c.Work, "seq")
+	os.MkdirAll(dir, 0o755)
+	rec := filepath.Join(dir, "recorded")
+	helper := filepath.Join(dir, "helper.sh")
+	// a stand-in for `git` that records what `git credential <sub>` is given on stdin: the observation
+	// point is what git-lfs hands to Git (Git's own later checks are not git-lfs's protection)
+	fakeBin := filepath.Join(dir, "bin")
+	os.MkdirAll(fakeBin, 0o755)
+	realGit, _ := exec.LookPath("git")
+	os.WriteFile(filepath.Join(fakeBin, "git"), []byte("#!/bin/sh\nif [ \"$1\" = credential ]; then cat >> \""+rec+"\"; printf 'END\\n' >> \""+rec+"\"; echo username=u; echo password=p; exit 0; fi\nexec \""+realGit+"\" \"$@\"\n"), 0o755)
+	os.WriteFile(helper, []byte("#!/bin/sh\ncat >/dev/null\n"), 0o755)
+	if err := gitInit(dir); err != nil {
+		c.R.Add(Finding{Kind: "diff", What: err.Error(), Broken: "corr.C17.sequence"})
+		return
+	}
+	var lines, impl []string
+	for i := 0; i < n; i++ {
+		globalOff := r.Chance(25)
+		gitcfg := map[string][]string{"credential.helper": {helper},
+			"credential.https://legacy.example.com.protectprotocol": {"false"},
+			"credential.https://strict.example.com.protectprotocol": {"true"}}
+		dflt := "1"
+		if globalOff {
+			gitcfg["credential.protectprotocol"] = []string{"false"}
+		}
+		cfg := config.NewFrom(config.Values{Git: gitcfg})
+		ctxt := creds.NewCredentialHelperContext(cfg.Git, cfg.Os)
+		var steps, got []string
+		k := 2 + r.Intn(4)
+		for j := 0; j < k; j++ {
+			host := Pick(r, []string{"legacy", "strict", "plain", "plain"})
+			user := Pick(r, []string{"alice", "al%0Dice", "alice%0Dhost=evil.example.com", "bob"})
+			u, err := url.Parse("https://" + user + "@" + host + ".example.com/repo")
+			if err != nil {
+				continue
+			}
+			g := map[string]string{"legacy": "gf", "strict": "gt", "plain": "gd"}[host]
+			if host == "plain" && globalOff {
+				g = "gf" // the global setting applies
+			}
+			wrapper := ctxt.GetCredentialHelper(nil, u)
+			os.Remove(rec)
+			oldwd, _ := os.Getwd()
+			os.Chdir(dir)
+			os.Setenv("GIT_CONFIG_COUNT", "1")
+			os.Setenv("GIT_CONFIG_KEY_0", "credential.helper")
+			os.Setenv("GIT_CONFIG_VALUE_0", helper)
+			oldPath := os.Getenv("PATH")
+			os.Setenv("PATH", fakeBin+":"+oldPath)
+			_, ferr := wrapper.CredentialHelper.Fill(wrapper.Input)
+			os.Setenv("PATH", oldPath)
+			os.Unsetenv("GIT_CONFIG_COUNT")
+			os.Chdir(oldwd)
+			recorded, _ := os.ReadFile(rec)
+			var ps []string
+			var keys []string
+			for key := range wrapper.Input {
+				keys = append(keys, key)
+			}
+			sort.Strings(keys)
+			hasCR := false
+			for _, key := range keys {
+				for _, v := range wrapper.Input[key] {
+					ps = append(ps, hx([]byte(key))+":"+hx([]byte(v)))
+					if strings.Contains(v, "\r") {
+						hasCR = true
+					}
+				}
+			}
+			steps = append(steps, g, "f"+strings.Join(ps, ","))
+			// refused = git-lfs itself refused: an error and nothing reached `git credential`'s helper.
+			// (git's own credential code may also reject a CR; then the helper records nothing either, but
+			// that is git's protection, so only "accepted with the helper invoked" counts as accepted.)
+			if len(recorded) > 0 {
+				got = append(got, "a")
+			} else if ferr != nil {
+				got = append(got, "r")
+			} else {
+				got = append(got, "a")
+			}
+			protect := g == "gt" || (g == "gd")
+			if protect && hasCR && len(recorded) > 0 {
+				c.R.Add(Finding{Kind: "oracle", What: "a credential value with a carriage return reached `git credential` for a URL with protocol protection enabled (after other URLs were served on the same context)",
+					Case: fmt.Sprintf("C17 seq %s %s", dflt, strings.Join(steps, ";")), Impl: clip(hx(recorded), 300)})
+			}
+			c.R.Count("seq.step." + g)
+			if hasCR {
+				c.R.Count("seq.step.cr")
+			}
+		}
+		line := fmt.Sprintf("C17 seq %s %s", dflt, strings.Join(steps, ";"))
+		lines = append(lines, line)
+		impl = append(impl, strings.Join(got, ","))
+		c.R.Eval(line, true)
+	}
+	model, err := c.Or.Ask(lines)
+	if err != nil {
+		c.R.Add(Finding{Kind: "diff", What: "oracle process failed: " + err.Error(), Broken: "corr.C17.sequence"})
+		return
+	}
+	for i := range lines {
+		if model[i] != impl[i] {
+			// git itself refuses CR in some versions even when git-lfs lets it through: an `a` predicted
+			// by the model that turned into `r` is git's own protection, not a disagreement of git-lfs
+			mi, ii := strings.Split(model[i], ","), strings.Split(impl[i], ",")
+			real := len(mi) != len(ii)
+			for k := 0; !real && k < len(mi); k++ {
+				if mi[k] != ii[k] && !(mi[k] == "a" && ii[k] == "r") {
+					real = true
+				}
+			}
+			if real {
+				c.R.Add(Finding{Kind: "diff", What: "credential context: refusals of a URL sequence differ between model and implementation", Case: lines[i], Impl: impl[i], Model: model[i], Broken: "corr.C17.sequence"})
+			}
+		}
 	}
 }
 
@@ -220,7 +345,13 @@ func c17EndToEnd(c *Ctx, r *Rng) {
 	os.MkdirAll(dir, 0o755)
 	rec := filepath.Join(dir, "recorded")
 	helper := filepath.Join(dir, "helper.sh")
-	os.WriteFile(helper, []byte("#!/bin/sh\nif [ \"$1\" = get ]; then cat >> \""+rec+"\"; printf 'END\\n' >> \""+rec+"\"; echo username=u; echo password=p; else cat >/dev/null; fi\n"), 0o755)
+	// a stand-in for `git` that records what `git credential <sub>` is given on stdin: the observation
+	// point is what git-lfs hands to Git (Git's own later checks are not git-lfs's protection)
+	fakeBin := filepath.Join(dir, "bin")
+	os.MkdirAll(fakeBin, 0o755)
+	realGit, _ := exec.LookPath("git")
+	os.WriteFile(filepath.Join(fakeBin, "git"), []byte("#!/bin/sh\nif [ \"$1\" = credential ]; then cat >> \""+rec+"\"; printf 'END\\n' >> \""+rec+"\"; echo username=u; echo password=p; exit 0; fi\nexec \""+realGit+"\" \"$@\"\n"), 0o755)
+	os.WriteFile(helper, []byte("#!/bin/sh\ncat >/dev/null\n"), 0o755)
 	if err := gitInit(dir); err != nil {
 		c.R.Add(Finding{Kind: "diff", What: err.Error(), Broken: "corr.C17.e2e"})
 		return
